@@ -813,6 +813,10 @@ def truth_valued_fields(ctx, report, RULE='C01.R13'):
     report.rule(RULE, 'a field the parser fills with a truth value admits truth values only (bool converter or validator)')
     for c in representatives(ctx, '_parse'):
         res = ctx.canon.layout(c, 'parse').result
+        # instances are the reads (a read that reaches no field is C01.R2's finding, not a vanished anchor of this rule)
+        for n_ in walk(res.block):
+            if isinstance(n_, Op) and n_.prim == 'parse_numeric' and n_.args.get('converter') is not None and 'bool' in show(n_.args.get('converter')):
+                report.count(RULE)
         objs = []
         find_objs(res.value, objs)
         for o in objs:
@@ -833,7 +837,6 @@ def truth_valued_fields(ctx, report, RULE='C01.R13'):
                 conv = src.op.args.get('converter')
                 if conv is None or 'bool' not in show(conv):
                     continue
-                report.count(RULE)
                 fconv = ast.unparse(fld.converter_node) if fld.converter_node is not None else ''
                 fval = ast.unparse(fld.validator_node) if fld.validator_node is not None else ''
                 if fconv == 'bool' or ('instance_of(bool)' in fval and 'integer_types' not in fval):
